@@ -42,7 +42,7 @@ func runC04(e *Env) {
 	}
 	ruleC04Keys(e)
 	ruleC04Sep(e)
-	ruleLimit(e, "C04.limit", "size")
+	ruleLimitAccept(e, "C04.limit", "size")
 	e.S.Floor("C04.forms", 8)
 	e.S.Floor("C04.quote", 4)
 	e.S.Floor("C04.vocab", 10)
